@@ -177,6 +177,10 @@ requests:
   - name: e
     method: GET
     uri: '/e/{{index .source.shop.users 5}}'
+  - name: g
+    method: GET
+    uri: '/g/{{.request.g.preprocessor.i1}}/{{.request.g.preprocessor.i2}}/{{.request.g.preprocessor.i3}}/{{.request.g.preprocessor.i4}}'
+    preprocessor: {mapping: {i1: "source.users[-7].user_id", i2: "source.users[12].user_id", i3: "source.users[-5].user_id", i4: "source.users[last].user_id"}}
   - name: p
     method: GET
     uri: '/p/{{.request.a.postprocessor.token'
@@ -300,6 +304,9 @@ func (c Cell) interpret(n *int, next *int) wantShot {
 			s = Sent{Method: "GET", URI: "/b?t=" + token}
 		case "c":
 			s = Sent{Method: "GET", URI: "/c"}
+		case "g":
+			// integer indices wrap around in both directions (5 rows: -7 -> row 3, 12 -> row 2, -5 -> row 0), last -> row 4
+			s = Sent{Method: "GET", URI: "/g/14/13/11/15"}
 		}
 		w.sent = append(w.sent, s)
 		failed := false
@@ -764,6 +771,7 @@ func allCells(thorough bool) []Cell {
 	}
 	for _, p := range [][]string{{"e"}, {"a", "e"}, {"e", "a"}, {"a", "e", "b"}, {"b", "e"}, {"b(2)", "e", "c"}, {"c", "e"}, {"a(1,100)", "e"},
 		// templates that do not even parse (an unclosed action, an unknown function): the step fails the same way in every shot
+		{"g"}, {"a", "g", "b"}, {"g(2)", "c"},
 		{"p"}, {"a", "p"}, {"a", "p", "b"}, {"c", "p(2)"}, {"q"}, {"a", "q", "b"}, {"b", "q"}, {"p", "q"}} {
 		for _, mw := range []int{0, 30} {
 			out = append(out, Cell{Mode: "exec", Program: p, MinWait: mw, Instances: 1, Shots: 3})
